@@ -25,6 +25,7 @@ type VEvent struct {
 	Node  int    `json:"node,omitempty"`  // RP/RS/HT target; LC new leader
 	Split bool   `json:"split,omitempty"` // RP: one StoreLogs per entry instead of one batch
 	Fail  bool   `json:"fail,omitempty"`  // LA/RP: the node's store fails the (first) StoreLogs once; the call is then retried
+	CP2   bool   `json:"cp2,omitempty"`   // LA: every entry of the batch is a checkpoint (several checkpoints in one StoreLogs)
 }
 
 func (e VEvent) String() string {
@@ -33,6 +34,9 @@ func (e VEvent) String() string {
 		s := fmt.Sprintf("LA(%d", e.N)
 		if e.CP {
 			s += ",cp"
+		}
+		if e.CP2 {
+			s += ",all-cp"
 		}
 		if e.Fail {
 			s += ",fail+retry"
@@ -353,7 +357,7 @@ func (c *VCluster) Apply(e VEvent) {
 			c.seq++
 			// content is a function of (index, term), as in raft
 			l := &raft.Log{Index: next + uint64(i), Term: c.Term, Type: raft.LogCommand, Data: []byte(fmt.Sprintf("d%d.%d", c.Term, next+uint64(i)))}
-			if e.CP && i == e.N-1 {
+			if (e.CP && i == e.N-1) || e.CP2 {
 				l.Data = []byte(fmt.Sprintf("CP%d.%d", c.Term, next+uint64(i)))
 			}
 			batch = append(batch, l)
@@ -362,8 +366,11 @@ func (c *VCluster) Apply(e VEvent) {
 			c.Viol = append(c.Viol, Violation{Prop: "C18", Msg: fmt.Sprintf("leader StoreLogs failed: %v", err)})
 			return
 		}
-		if e.CP {
-			cp := c.raw(ld, next+uint64(e.N)-1)
+		for k := 0; k < e.N; k++ {
+			if !(e.CP2 || (e.CP && k == e.N-1)) {
+				continue
+			}
+			cp := c.raw(ld, next+uint64(k))
 			if cp != nil && len(cp.Extensions) >= 24 {
 				st := leU64(cp.Extensions[8:16])
 				var tr []*raft.Log
